@@ -12,6 +12,10 @@ def _violations_from(spec, res, via=None):
     for f in res.get("failed", []):
         if f["kind"] in ("unwind",):
             continue
+        if f["kind"] == "safety" and f["name"].startswith(spec["entry"] + "."):
+            # a safety failure inside the HARNESS is a defect of the unit, not of the code under contract
+            res.setdefault("harness_errors", []).append(f["name"] + ": " + f["desc"])
+            continue
         if f["kind"] in seen:
             continue
         seen.add(f["kind"])
@@ -67,7 +71,7 @@ def run_unit(spec):
     res["violations"] = _violations_from(spec, res)
     res["status"] = "violated" if res["violations"] else "undecided"
     if not res["violations"]:
-        res["reason"] = "only unwinding assertions failed"
+        res["reason"] = ("harness error: " + "; ".join(res["harness_errors"][:2])) if res.get("harness_errors") else "only unwinding assertions failed"
     return res
 
 
